@@ -264,6 +264,14 @@ def finishT (tid : Nat) (t : Task) : List Upd :=
 def Node.adjustTask (n : Node) : Node :=
   { n with total := n.self, self := { sum := n.self.sum, recs := 0, min := 0, max := 0 } }
 
+/-- the records of one task in a function report: final reader state and the node updates in order -/
+def runT (t : Task) : List Rec → Task × List Upd
+  | [] => (t, [])
+  | r :: rs =>
+    let a := stepF t r
+    let b := runT a.1 rs
+    (b.1, a.2 ++ b.2)
+
 /-! ### whole data set -/
 
 structure St where
